@@ -34,13 +34,12 @@ def rnd_code(c: str):
     return None
 TYPES = {"s": "structural", "r": "regulatory", "h": "housekeeping", "c": "conditional", "d": "dormant"}
 TYPES_INV = {v: k for k, v in TYPES.items()}
-REASONS = {"": "u", "rollback": "rb", "replication_mutation": "rep", "random_mutation": "rnd"}
+REASONS = {"": "u", "rollback": "rb", "replication_mutation": "rep", "random_mutation": "rnd", "add_gene": "add"}
 
 
 _OBJS: dict = {}     # mutable value objects of the case being run: code 200..299 -> THE list object [code]
 
 F_ALIAS = "C20-shared-mutable-value-objects"
-F_READD = "C20-refused-readd-not-logged"
 
 
 def val(code: int):
@@ -1035,9 +1034,18 @@ class C20(Prop):
                 if n_ in bv and not b["allow"]:
                     if r["res"] != "ret 0":
                         V("refused_logged", "refused re-add returns False", r["res"], idx)
-                    if not any(m_["gene"] == n_ and not m_["approved"] for m_ in new_):
-                        V("refused_readd_logged", f"refused re-add of gene {n_} -> {r.get('val')}: an unapproved log entry",
-                          f"new entries {new_}", idx)
+                    if len(new_) != 1 or new_[0]["gene"] != n_ or new_[0]["approved"] or new_[0]["new"] != r.get("val") \
+                            or new_[0]["orig"] != bv[n_]:
+                        V("refused_readd_logged", f"refused re-add of gene {n_}: exactly one unapproved entry "
+                          f"{n_}:{bv[n_]}>{r.get('val')}", f"new entries {new_}", idx)
+                    if a["approved_count"] != b["approved_count"]:
+                        V("refused_logged", "approved_mutations unchanged by a refused re-add",
+                          f"{b['approved_count']} -> {a['approved_count']}", idx)
+                    if calls:
+                        V("refused_logged", "a refused re-add does not consult the approval callback", f"{len(calls)} call(s)", idx)
+                elif new_:
+                    V("refused_logged", "an accepted add_gene (new name, or mutations enabled) is not a refused attempt",
+                      f"new entries {new_}", idx)
                 added = set(values(a)) - set(bv)
                 changed = {n for n in bv if n in a["genes"] and a["genes"][n] != b["genes"][n]}
                 for n in added | changed:
@@ -1167,8 +1175,6 @@ class C20(Prop):
         key = tuple(case["lines"])
         if any(r_.get("op") == "poke" and str(r_.get("res", "")).startswith("poked") for r_ in recs):
             self._attr[key] = F_ALIAS          # an object held by a genome was mutated in place by the caller
-        elif out and all(v_.clause == "refused_readd_logged" for v_ in out):
-            self._attr[key] = F_READD          # nothing but unlogged refused re-adds
         else:
             self._attr.pop(key, None)
         return out
